@@ -17,7 +17,7 @@ RULE = ("call specs = (function, parameter variant, dtype, backend) over 42 publ
         "(b) the whole sequence is replayed in reversed order in another process under a different NUMBA_NUM_THREADS / Dask worker "
         "count; results are compared by sha256 of bytes+dtype+shape; module tables and __defaults__ of the public functions are "
         "snapshotted after every call; plus ordered pairs (A, B) of specs of one function that differ in parameters/dtype/raster size: B after A in a new process must equal B alone; non-trivial = distinct (spec, predecessor spec) pairs compared with a fresh process")
-BUDGET = {'quick': 170, 'thorough': 1800}
+BUDGET = {'quick': 340, 'thorough': 1800}
 MODES = {'quick': [('J', 8), ('I', 8)], 'thorough': [('J', 8), ('I', 8)]}
 FLOORS = {'quick': {'repeat_identical': 141, 'fresh_process_identical': 48, 'reordered_other_threads_identical': 220, 'functions_in_sequences': 1,
                     'state_tables_unchanged': 250, 'compiled_mode_sequences': 4, 'pair_second_call_equals_fresh': 36, 'edited_argument_recomputed': 100, 'joint_compute_equals_separate': 25},
